@@ -1,4 +1,5 @@
 import Treepath.Proofs.MutateLemmas
+import Treepath.Proofs.NaturalNext
 /- C10 — pop removes exactly the first match and returns it -/
 namespace Treepath.C10
 
@@ -86,5 +87,56 @@ theorem pop_returns (stepsOf : Heap → List (Step Val)) (src : Src Val) (d : Op
   cases r with
   | error e => rfl
   | ok o => cases o <;> rfl
+
+/-- **"the first match of p"**, against the definition: the match `pop_match` removes is —
+location for location, value unfolding to value — the first result of the step-by-step
+definition of `p` on the JSON tree the document unfolds to; and when `pop_match` reports that
+nothing matched, the definition selects nothing -/
+theorem popped_match_is_the_definitions_first (stepsOf : Heap → List (Step Val)) (root : Val) (j : J)
+    (h h' : Heap) (mm : Bool) (m : MNode Val) (hu : Unf h root j)
+    (sb : Array (Step J)) (hsteps : LRel (StepRel (Unf h)) (stepsOf h) sb.toList) (hp : PredsClean sb)
+    (hpop : popMatch stepsOf (.doc root) mm h = (h', .ok (some m))) :
+    ∃ m', NodeRel (Unf h) m m' ∧ (evalE sb.toList (.root j)).1.head? = some m' := by
+  simp only [popMatch] at hpop
+  split at hpop
+  · simp at hpop
+  · rename_i m0 hg
+    split at hpop
+    · simp only [Prod.mk.injEq, Except.ok.injEq, Option.some.injEq] at hpop
+      obtain ⟨_, rfl⟩ := hpop
+      exact getMatch_heap_found h root j hu (stepsOf h).toArray sb (by simpa using hsteps) hp mm m0 hg
+    · simp at hpop
+  · simp at hpop
+
+theorem vertexPop_not_notFound (h : Heap) (last : Option (Step Val)) (m : MNode Val)
+    (hv : vertexPop h last m = .error .matchNotFound) : False := by
+  simp only [vertexPop] at hv
+  split at hv
+  · split at hv
+    · split at hv <;> simp at hv
+    · simp at hv
+  · split at hv
+    · split at hv <;> simp at hv
+    · simp at hv
+  · simp at hv
+
+theorem nothing_to_pop_means_nothing_selected (stepsOf : Heap → List (Step Val)) (root : Val) (j : J)
+    (h : Heap) (hu : Unf h root j)
+    (sb : Array (Step J)) (hsteps : LRel (StepRel (Unf h)) (stepsOf h) sb.toList) (hp : PredsClean sb)
+    (hpop : popMatch stepsOf (.doc root) true h = (h, .error .matchNotFound)) :
+    evalE sb.toList (.root j) = ([], none) := by
+  simp only [popMatch] at hpop
+  split at hpop
+  · simp at hpop
+  · split at hpop
+    · simp at hpop
+    · rename_i e hv
+      simp only [Prod.mk.injEq, Except.error.injEq] at hpop
+      obtain ⟨_, rfl⟩ := hpop
+      exact (vertexPop_not_notFound _ _ _ hv).elim
+  · rename_i e hg
+    simp only [Prod.mk.injEq, Except.error.injEq] at hpop
+    obtain ⟨_, rfl⟩ := hpop
+    exact getMatch_heap_notfound h root j hu (stepsOf h).toArray sb (by simpa using hsteps) hp true (.inr hg)
 
 end Treepath.C10
